@@ -44,40 +44,40 @@ Qed.
 
 (* ---------------------------------------------------------------- source *)
 
-Lemma src_read_spec n cap w :
+Lemma src_read_spec full n cap w :
   w_cur w <= w_len w ->
-  let '(d, w') := src_read n cap w in
+  let '(d, w') := src_read_g full n cap w in
   bytes_of d = nseq (w_cur w) (dlen d) /\
   w_cur w' = w_cur w + dlen d /\ w_cur w' <= w_len w /\
   w_buf w' = w_buf w /\ w_len w' = w_len w /\
-  dlen d = src_amount n cap w.
+  dlen d = src_amount_g full n cap w.
 Proof.
-  intro Hc. unfold src_read. set (k := src_amount n cap w).
+  intro Hc. unfold src_read_g. set (k := src_amount_g full n cap w).
   assert (Hk : k <= w_len w - w_cur w).
-  { unfold k, src_amount. destruct n as [m|]; [destruct cap as [c|]|]; lia. }
+  { unfold k, src_amount_g. destruct n as [m|]; [destruct cap as [c|]; [destruct full; [destruct (c =? 0)|]|]|]; lia. }
   destruct (k =? 0) eqn:E; simpl.
   - apply N.eqb_eq in E. rewrite E. repeat split; try reflexivity; lia.
   - rewrite app_nil_r, N.add_0_r. repeat split; try reflexivity; lia.
 Qed.
 
-Lemma src_amount_le m cap w : src_amount (Some m) cap w <= m.
-Proof. unfold src_amount. destruct cap; lia. Qed.
+Lemma src_amount_le full m cap w : src_amount_g full (Some m) cap w <= m.
+Proof. unfold src_amount_g. destruct cap as [c|]; [destruct full; [destruct (c =? 0)|]|]; lia. Qed.
 
 (* read at most what the buffer has room for, add it: still in sync *)
-Lemma fill_ok w m cap :
+Lemma fill_ok full w m cap :
   winv w -> m <= buf_remaining (w_buf w) ->
-  let '(d, w') := src_read (Some m) cap w in
+  let '(d, w') := src_read_g full (Some m) cap w in
   let w1 := with_buf w' (snd (buf_add d (w_buf w'))) in
   winv w1 /\ b_pos (w_buf w1) = b_pos (w_buf w) /\ w_len w1 = w_len w /\
   b_prot (w_buf w1) = b_prot (w_buf w) /\
-  w_cur w1 = w_cur w + src_amount (Some m) cap w /\
-  buf_size (w_buf w1) = buf_size (w_buf w) + src_amount (Some m) cap w /\
-  buf_remaining (w_buf w1) = buf_remaining (w_buf w) - src_amount (Some m) cap w.
+  w_cur w1 = w_cur w + src_amount_g full (Some m) cap w /\
+  buf_size (w_buf w1) = buf_size (w_buf w) + src_amount_g full (Some m) cap w /\
+  buf_remaining (w_buf w1) = buf_remaining (w_buf w) - src_amount_g full (Some m) cap w.
 Proof.
-  intros [Hb Hc] Hm. pose proof (src_read_spec (Some m) cap w Hc) as S.
-  destruct (src_read (Some m) cap w) as [d w'].
+  intros [Hb Hc] Hm. pose proof (src_read_spec full (Some m) cap w Hc) as S.
+  destruct (src_read_g full (Some m) cap w) as [d w'].
   destruct S as (Hd & Hcur & Hle & Hbuf & Hlen & Hamt).
-  pose proof (src_amount_le m cap w) as Ham.
+  pose proof (src_amount_le full m cap w) as Ham.
   rewrite Hbuf.
   assert (Hfit : dlen d <= buf_remaining (w_buf w)) by lia.
   destruct (add_fits _ d _ Hb Hfit) as [_ Hb'].
@@ -182,7 +182,7 @@ Proof.
     assert (H1 : winv w1 /\ b_pos (w_buf w1) = b_pos (w_buf w) /\ w_len w1 = w_len w).
     { unfold w1. destruct size as [n|]; [|auto].
       destruct ((0 <? buf_remaining (w_buf w)) && (buf_size (w_buf w) <? n)); [|auto].
-      pose proof (fill_ok w (N.min n (buf_remaining (w_buf w))) cap Hw ltac:(lia)) as F.
+      pose proof (fill_ok false w (N.min n (buf_remaining (w_buf w))) cap Hw ltac:(lia)) as F.
       destruct (src_read (Some (N.min n (buf_remaining (w_buf w)))) cap w) as [d w'].
       cbv zeta in F. destruct F as (F1 & F2 & F3 & _). auto. }
     destruct H1 as (Hw1 & Hp1 & Hl1).
@@ -355,18 +355,18 @@ Proof.
   destruct Z as [-> | Hnz].
   - unfold read_ok. simpl. rewrite N.add_0_r. repeat split; auto; lia.
   - assert (G : (let '(d, w') :=
-        (if srw_bypass w then src_read num cap w
+        (if srw_bypass w then src_read_g true num cap w
          else let to_read := match num with None => buf_size (w_buf w) | Some n => n end in
               let from_source := N.min to_read (buf_remaining (w_buf w)) in
-              let '(d, w') := src_read (Some from_source) cap w in
+              let '(d, w') := src_read_g true (Some from_source) cap w in
               let w1 := with_buf w' (snd (buf_add d (w_buf w'))) in
               let '(r, b') := buf_get to_read (w_buf w1) in (r, with_buf w1 b')) in
         read_ok (w_len w) c num d /\ sinv (c + dlen d) w' /\ w_len w' = w_len w)).
     { destruct (srw_bypass w) eqn:Eby.
       - (* straight from the reader *)
         destruct (sinv_bypass_form c w Hs Eby) as (Hb & Hp & ->).
-        pose proof (src_read_spec num cap w Hc) as S.
-        destruct (src_read num cap w) as [d w']. destruct S as (Hd' & Hcur & Hle & Hbuf & Hlen & Hamt).
+        pose proof (src_read_spec true num cap w Hc) as S.
+        destruct (src_read_g true num cap w) as [d w']. destruct S as (Hd' & Hcur & Hle & Hbuf & Hlen & Hamt).
         unfold read_ok. split; [split; [exact Hd' | split; [lia|]]|].
         { destruct num as [m|]; [|exact I]. rewrite Hamt. apply src_amount_le. }
         split; [|exact Hlen].
@@ -376,8 +376,8 @@ Proof.
         destruct Hd as [[Hw ->] | (_ & Hby & _)]; [|congruence].
         cbv zeta.
         set (to_read := match num with None => buf_size (w_buf w) | Some n => n end).
-        pose proof (fill_ok w (N.min to_read (buf_remaining (w_buf w))) cap Hw ltac:(lia)) as F.
-        destruct (src_read (Some (N.min to_read (buf_remaining (w_buf w)))) cap w) as [d0 w0].
+        pose proof (fill_ok true w (N.min to_read (buf_remaining (w_buf w))) cap Hw ltac:(lia)) as F.
+        destruct (src_read_g true (Some (N.min to_read (buf_remaining (w_buf w)))) cap w) as [d0 w0].
         cbv zeta in F |- *. set (w1 := with_buf w0 (snd (buf_add d0 (w_buf w0)))) in *.
         destruct F as (Hw1 & Hp1 & Hl1 & _).
         pose proof (get_ok w1 to_read Hw1) as S. destruct (buf_get to_read (w_buf w1)) as [d b'].
@@ -521,11 +521,13 @@ Proof.
   - lia.
 Qed.
 
-Lemma src_amount_zero m cap w :
-  0 < m -> cap <> Some 0 -> src_amount (Some m) cap w = 0 -> w_len w <= w_cur w.
+Lemma src_amount_zero full m cap w :
+  0 < m -> cap <> Some 0 -> src_amount_g full (Some m) cap w = 0 -> w_len w <= w_cur w.
 Proof.
-  unfold src_amount. intros Hm Hc. destruct cap as [c|].
-  - assert (c <> 0) by (intro; subst; congruence). lia.
+  unfold src_amount_g. intros Hm Hc. destruct cap as [c|].
+  - assert (Hc0 : c <> 0) by (intro; subst; congruence). destruct full.
+    + replace (c =? 0) with false by (symmetry; apply N.eqb_neq; exact Hc0). lia.
+    + lia.
   - lia.
 Qed.
 
@@ -538,7 +540,7 @@ Proof.
   unfold bio_read. destruct n as [|q]; [lia|]. set (n := N.pos q) in *.
   destruct ((0 <? buf_remaining (w_buf w)) && (buf_size (w_buf w) <? n)) eqn:Ebr.
   - apply andb_true_iff in Ebr. destruct Ebr as [E1 E2]. apply N.ltb_lt in E1, E2.
-    pose proof (fill_ok w (N.min n (buf_remaining (w_buf w))) cap Hw ltac:(lia)) as F.
+    pose proof (fill_ok false w (N.min n (buf_remaining (w_buf w))) cap Hw ltac:(lia)) as F.
     destruct (src_read (Some (N.min n (buf_remaining (w_buf w)))) cap w) as [d0 w0].
     cbv zeta in F. set (w1 := with_buf w0 (snd (buf_add d0 (w_buf w0)))) in *.
     destruct F as (Hw1 & _ & _ & _ & _ & Hsz & _).
@@ -565,21 +567,21 @@ Proof.
   unfold srw_read. destruct n as [|q]; [lia|]. set (n := N.pos q) in *.
   destruct (srw_bypass w) eqn:Eby.
   - destruct (sinv_bypass_form c w Hs Eby) as (_ & _ & ->).
-    pose proof (src_read_spec (Some n) cap w Hc) as S.
-    destruct (src_read (Some n) cap w) as [d w']. destruct S as (_ & _ & _ & _ & _ & Hamt).
+    pose proof (src_read_spec true (Some n) cap w Hc) as S.
+    destruct (src_read_g true (Some n) cap w) as [d w']. destruct S as (_ & _ & _ & _ & _ & Hamt).
     cbn [fst]. intro Hz. rewrite Hz in Hamt. symmetry in Hamt.
     apply src_amount_zero in Hamt; [|lia|exact Hcap]. left. lia.
   - destruct Hd as [[Hw ->] | (_ & Hby & _)]; [|congruence].
     destruct (winv_pos w Hw) as [P1 P2]. pose proof Hw as [Hb _].
     cbv zeta.
-    pose proof (fill_ok w (N.min n (buf_remaining (w_buf w))) cap Hw ltac:(lia)) as F.
-    destruct (src_read (Some (N.min n (buf_remaining (w_buf w)))) cap w) as [d0 w0].
+    pose proof (fill_ok true w (N.min n (buf_remaining (w_buf w))) cap Hw ltac:(lia)) as F.
+    destruct (src_read_g true (Some (N.min n (buf_remaining (w_buf w)))) cap w) as [d0 w0].
     cbv zeta in F. set (w1 := with_buf w0 (snd (buf_add d0 (w_buf w0)))) in *.
     destruct F as (Hw1 & _ & _ & _ & _ & Hsz & _).
     pose proof (get_ok w1 n Hw1) as S. destruct (buf_get n (w_buf w1)) as [d b'].
     destruct S as (_ & _ & Hdl & _). cbn [fst]. intro Hz.
     assert (Z : buf_size (w_buf w) = 0) by lia.
-    assert (K : src_amount (Some (N.min n (buf_remaining (w_buf w)))) cap w = 0) by lia.
+    assert (K : src_amount_g true (Some (N.min n (buf_remaining (w_buf w)))) cap w = 0) by lia.
     destruct (N.eq_dec (buf_remaining (w_buf w)) 0) as [R|R].
     + right. split; [|exact R]. exact (full_and_drained _ _ Hb R Z).
     + apply src_amount_zero in K; [|lia|exact Hcap]. left. lia.
@@ -602,7 +604,7 @@ Proof.
     specialize (Hc c eq_refl). destruct (buf_fits block (w_buf w)) eqn:Ef.
     + unfold buf_fits in Ef. apply N.leb_le in Ef.
       assert (Hm : c <= buf_remaining (w_buf w)) by (unfold buf_remaining; lia).
-      pose proof (fill_ok w c None Hw Hm) as F.
+      pose proof (fill_ok false w c None Hw Hm) as F.
       destruct (src_read (Some c) None w) as [d w']. cbv zeta in F.
       destruct F as (F1 & F2 & F3 & _). split; [exact F1|]. split; [exact F3 | exact F2].
     + split; [exact Hw|]. split; reflexivity.
@@ -676,4 +678,22 @@ Proof.
   intros H1 H. destruct (winv_new _ _ _ _ _ H1 H) as (Hw & Hl & Hp).
   split; [|split; [split; [exact Hw | now rewrite Hp] | exact Hl]].
   destruct Hw as [Hb Hc]. split; [exact Hc|]. left. split; [split; assumption | now rewrite Hp].
+Qed.
+
+(* ---------------------------------------------------------------- _read_from_source absorbs short reads *)
+
+Lemma read_loop_total : forall caps n avail got,
+  (forall c, In (Some c) caps -> 1 <= c) -> got <= n ->
+  read_loop caps n avail got = got + N.min (n - got) avail.
+Proof.
+  induction caps as [|c t IH]; intros n avail got Hc Hg; cbn [read_loop].
+  - destruct (n <=? got) eqn:E; [apply N.leb_le in E; lia | reflexivity].
+  - destruct (n <=? got) eqn:E; [apply N.leb_le in E; lia|]. apply N.leb_gt in E.
+    set (k := match c with None => N.min (n - got) avail | Some c0 => N.min (N.min (n - got) avail) c0 end).
+    assert (Hk : k <= n - got /\ k <= avail /\ (k = 0 -> avail = 0)).
+    { unfold k. destruct c as [c0|]; [|lia]. assert (1 <= c0) by (apply Hc; left; reflexivity). lia. }
+    destruct Hk as (K1 & K2 & K3).
+    destruct (k =? 0) eqn:Ek.
+    + apply N.eqb_eq in Ek. rewrite (K3 Ek). lia.
+    + apply N.eqb_neq in Ek. rewrite IH; [lia | intros c0 Hin; apply Hc; right; exact Hin | lia].
 Qed.
